@@ -197,7 +197,8 @@ class C08(Prop):
             h = rng.randint(1, 4)
             en = st + rng.randint(0, 13)
             return {"clock": "simple", "start": st, "stop": en, "step": h, "comps": comps, "mode": mode, "pop": pop}
-        num, den = rng.choice([(1, 1), (1, 2), (9, 4), (61, 2), (7, 1), (3, 8), (1, 3), (5, 1), (10, 3)])
+        num, den = rng.choice([(1, 1), (1, 2), (9, 4), (61, 2), (7, 1), (3, 8), (1, 3), (5, 1), (10, 3),
+                               (1, 16), (3, 32), (3, 10), (1, 10), (13, 10), (7, 10), (13, 50), (21, 16)])
         days = rng.randint(0, 40)
         return {"clock": "datetime", "start": [2020, 1, 1], "stop": [2020, 1 + days // 28, 1 + days % 28],
                 "step": [num, den], "comps": comps, "mode": mode, "pop": pop}
@@ -212,6 +213,9 @@ class C08(Prop):
             out.append({"clock": "simple", "start": 2, "stop": 8, "step": 2, "comps": comps, "mode": mode, "pop": 1})    # exact multiple
             out.append({"clock": "datetime", "start": [2020, 1, 1], "stop": [2020, 1, 4], "step": [1, 2], "comps": comps, "mode": mode, "pop": 2})
         out.append({"clock": "simple", "start": 5, "stop": 5, "step": 1, "comps": comps, "mode": "run_simulation", "pop": 2})   # nothing to do
+        for st in ([1, 16], [3, 10], [13, 10], [1, 10]):      # day fractions that are not a whole number of hours
+            out.append({"clock": "datetime", "start": [2020, 1, 1], "stop": [2020, 1, 3], "step": st, "comps": comps[:1],
+                        "mode": "run_simulation", "pop": 1})
         # all ten priorities on one channel, registered in descending order
         allp = {"name": "allp", "hooks": [[5, 100 + k] for k in range(5)],
                 "explicit": [["time_step", 9 - p, 200 + p] for p in range(10)] + [["time_step", 9 - p, 300 + p] for p in range(10)]}
@@ -295,8 +299,10 @@ class C08(Prop):
         # configuration -> step conversion on exactly representable day fractions
         if case["clock"] == "datetime":
             num, den = case["step"]
-            if den in (1, 2, 4, 8) and Fraction(num, den) * DAY_NS != h:
-                f.append({"sig": "step-conversion", "msg": f"configured {num}/{den} days, clock step {h} ns"})
+            want = Fraction(num, den) * DAY_NS
+            exact = den & (den - 1) == 0          # dyadic day fraction: every float operation of the conversion is exact
+            if (exact and want != h) or abs(want - h) > 1000:   # otherwise: within 1 microsecond of the configured step
+                f.append({"sig": "step-conversion", "msg": f"configured {num}/{den} days = {float(want)} ns, clock step {h} ns"})
         n = max(0, math.ceil(Fraction(stop - t0, h)))
         regs = self._regs(case)
         calls = obs["log"]
